@@ -314,6 +314,7 @@ type Split struct {
 	Text   string
 	E      Expr
 	Lo, Hi int64
+	Else   bool // "split E in lo..hi else": one more case for every value outside lo..hi
 }
 
 type Lemma struct {
@@ -621,7 +622,7 @@ func (cs *ContractSet) parseFile(path, pkg string) error {
 					if err1 != nil || err2 != nil {
 						return fmt.Errorf("%s:%d: bad split range", path, it.line)
 					}
-					la.Split = &Split{strings.TrimSpace(t[:k]), e, lo, hi}
+					la.Split = &Split{strings.TrimSpace(t[:k]), e, lo, hi, false}
 				case "modifies":
 					la.HasMod = true
 					text := strings.TrimSpace(rest[len("modifies"):])
@@ -706,7 +707,13 @@ func (cs *ContractSet) parseFile(path, pkg string) error {
 				if err != nil {
 					return fmt.Errorf("%s:%d: %v", path, it.line, err)
 				}
-				r := strings.Split(strings.TrimSpace(it.text[k+4:]), "..")
+				rng := strings.TrimSpace(it.text[k+4:])
+				els := false
+				if strings.HasSuffix(rng, " else") {
+					els = true
+					rng = strings.TrimSpace(strings.TrimSuffix(rng, " else"))
+				}
+				r := strings.Split(rng, "..")
 				if len(r) != 2 {
 					return fmt.Errorf("%s:%d: split range lo..hi", path, it.line)
 				}
@@ -715,7 +722,7 @@ func (cs *ContractSet) parseFile(path, pkg string) error {
 				if err1 != nil || err2 != nil {
 					return fmt.Errorf("%s:%d: bad split range", path, it.line)
 				}
-				cur.Splits = append(cur.Splits, Split{strings.TrimSpace(it.text[:k]), e, lo, hi})
+				cur.Splits = append(cur.Splits, Split{strings.TrimSpace(it.text[:k]), e, lo, hi, els})
 			}
 		}
 	}
